@@ -286,6 +286,19 @@ class NPs:
         raise Unsupported("np.reshape")
 
     @staticmethod
+    def allclose(a, b, rtol=1e-5, atol=1e-8):
+        """a numerical closeness test on path arrays: an uninterpreted batch-global fact (no axioms) — both outcomes are explored, so code whose
+        result depends on it is checked against the specification on both branches"""
+        import hashlib
+
+        arr = as_arr(a) if isinstance(a, Arr) else as_arr(b)
+        probe = arr.at(z3.Int("probe_index"))
+        g = z3.Bool("allclose_" + hashlib.sha1(probe.sexpr().encode()).hexdigest()[:10])
+        return Ctx.cur.branch(g)
+
+    isclose = allclose
+
+    @staticmethod
     def squeeze(arr):
         arr = as_arr(arr)
         if arr.length is None:
